@@ -174,7 +174,12 @@ def run(ctx):
             axes = range(len(want)) if kind != "cube" else [2]
             for i in axes:
                 scale = max(1.0, abs(want[i]))
-                tol = 1e-9 * scale if (is_node or kind != "spec1-curved") else 2e-3
+                if is_node or kind != "spec1-curved":
+                    tol = 1e-9 * scale
+                else:       # linear-interpolation error bound h^2/8 * max|f''| of the sampled function (f'' = 0.002)
+                    lo_c, hi_c = bb[0]
+                    h_c = (hi_c - lo_c) / (max(2, 1 + math.ceil(abs((hi_c - lo_c) / (samp[0] / D)))) - 1)
+                    tol = h_c * h_c / 8 * 0.002 * (1 + 1e-6) + 1e-9
                 err = abs(got[i] - want[i])
                 worst = max(worst, err / scale)
                 if not err <= tol:
